@@ -232,6 +232,30 @@ func partSplittings(ctx context.Context, r *vkit.Run, s storage.Storage, stack s
 		}
 		cuts = append(cuts, total)
 		sortInts(cuts)
+		if i%6 == 1 && stack != "ecbig" {
+			// parts whose sizes are exact multiples of the 256 KiB block of the parallel hasher
+			// (the last block is then handed to the hash workers by Write, not by Flush), plus a
+			// plain put of such a body with its Content-MD5 supplied
+			const blk = 256 * 1024
+			nparts = rng.Range(1, 3)
+			cuts = []int{0}
+			for j := 0; j < nparts; j++ {
+				cuts = append(cuts, cuts[len(cuts)-1]+blk*rng.Range(1, 2))
+			}
+			total = cuts[len(cuts)-1]
+			body := rng.Bytes(blk * rng.Range(1, 2))
+			ref := vmodel.RefChecksums(body)
+			pk := storage.MustNewObjectKey(fmt.Sprintf("block-multiple-put-%d", i))
+			pres, perr := s.PutObject(ctx, bn, pk, nil, bytesReader(body), &storage.ChecksumInput{ETag: &ref.ETag}, nil)
+			r.Eval(fmt.Sprintf("block-multiple-put|%s|%d", stack, len(body)))
+			r.Count("puts_of_hash_block_multiples", 1)
+			if perr != nil {
+				r.Violation("correct-content-md5-rejected:put", fmt.Sprintf("PutObject of %d bytes (a multiple of the 256 KiB hash block) with its correct Content-MD5 failed: %v", len(body), perr), map[string]any{"stack": stack, "size": len(body), "case": i})
+			} else if pres.ETag == nil || *pres.ETag != ref.ETag {
+				r.Violation("etag-mismatch:put", fmt.Sprintf("PutObject of %d bytes (a multiple of the 256 KiB hash block) returned ETag %v, MD5 is %s", len(body), vkit.Deref(pres.ETag), ref.ETag), map[string]any{"stack": stack, "size": len(body), "case": i})
+			}
+			_, _ = s.DeleteObject(ctx, bn, pk, nil)
+		}
 		data := rng.Bytes(total)
 		ctype := vkit.Pick(rng, []string{"FULL_OBJECT", "COMPOSITE", ""})
 		key := storage.MustNewObjectKey(fmt.Sprintf("split-%d", i))
